@@ -66,9 +66,9 @@ Definition hooke4 (la mu : R) : M4 :=
   fun i j k l => la * delta i j * delta k l + mu * (delta i k * delta j l + delta i l * delta j k).
 
 (* orthogonal matrices: r^T r = I and r r^T = I (each implies the other; both are stated) *)
+Definition gram (r : M2) : M2 := fun i j => sum3 (fun k => r k i * r k j).   (* r^T r *)
 Definition orth (r : M2) : Prop :=
-  forall i j, (i < 3)%nat -> (j < 3)%nat ->
-    sum3 (fun k => r k i * r k j) = delta i j /\ sum3 (fun k => r i k * r j k) = delta i j.
+  forall i j, (i < 3)%nat -> (j < 3)%nat -> gram r i j = delta i j /\ gram (tr2 r) i j = delta i j.
 
 (* orthotropic compliance in the material frame (E1 E2 E3, nu12 nu23 nu13, G12 G23 G13), axes (1,2,3) = storage (0,1,2):
    strain = S : stress *)
